@@ -33,6 +33,9 @@ type Conn struct {
 	closed  bool
 	// BlockReceive: Receive waits for replies instead of failing when none is pending
 	BlockReceive bool
+	// SlowFlush, when set, is called at the start of every Flush with its ordinal; it may sleep (a slow target)
+	SlowFlush func(nth int)
+	nflush    int
 }
 
 func (s *Server) NewConn() *Conn {
@@ -112,6 +115,13 @@ func (c *Conn) Send(cmd string, args ...interface{}) error {
 }
 
 func (c *Conn) Flush() error {
+	if c.SlowFlush != nil {
+		c.mu.Lock()
+		c.nflush++
+		n := c.nflush
+		c.mu.Unlock()
+		c.SlowFlush(n)
+	}
 	c.mu.Lock()
 	defer c.mu.Unlock()
 	if c.closed {
